@@ -27,6 +27,8 @@
 
 #include <algorithm>
 #include <array>
+#include <map>
+#include <memory>
 #include <set>
 #include <string>
 #include <thread>
@@ -1179,5 +1181,6 @@ VF_SECTION(truncate, 16, 16, 90) {
 }
 
 #include "C06_r2.hh"
+#include "C06_r3.hh"
 
 VF_MAIN()
